@@ -46,6 +46,7 @@ class Contract:
         self.reveal = set(kw.pop("reveal", []))
         self.allocates: bool = kw.pop("allocates", False)
         self.axioms = _labelled(kw.pop("axioms", []), "axiom")  # definitional facts about ufuns, instantiated for this call
+        self.preserves: List[str] = list(kw.pop("preserves", []))  # with modifies=["heap"]: locations guaranteed unchanged
         self.bounded: Optional[int] = kw.pop("bounded", None)  # bounded stand-in: checked only for containers of size <= K
         self.dyn_classes = list(kw.pop("dyn_classes", []))  # classes whose __call__ contract serves dynamic calls
         self.dyn_result = kw.pop("dyn_result", None)  # assumed return annotation of unknown callables  # may the function allocate objects that outlive the call?  # opaque spec functions whose definition this proof may use
